@@ -87,11 +87,40 @@ fn check_len(item: &(usize, u64, u8)) -> Report {
                     let qv = *m.get("q").unwrap_or(&0.0);
                     let nat = native_idx(&xs, qv, view_kind);
                     let ok = |r: usize| (if xs[0] <= qv && qv < xs[n - 1] { xs[r] <= qv && qv < xs[r + 1] } else { true }) && (if qv <= xs[0] { r == 0 } else { true }) && (if qv >= xs[n - 1] { r == n - 2 } else { true });
-                    let reproduced = xs.windows(2).all(|w| w[0] < w[1]) && match &nat {
+                    let mut reproduced = xs.windows(2).all(|w| w[0] < w[1]) && match &nat {
                         Ok(r) => *r > n - 2 || !ok(*r),
                         Err(_) => true,
                     };
-                    chk.finding("C11:wrong-interval", &format!("length {n}: a feasible search path returns {i} for a query it does not bracket"), Json::obj().with("length", n).with("model", crate::c05::model_json(&m)).with("native_result", format!("{nat:?}")), Some(reproduced));
+                    let mut crafted = String::new();
+                    if !reproduced {
+                        // The model fixes only the ORDER of the values; natively the guess is computed from them and may differ
+                        // from the guess k of this path. Construct an exactly representable axis that realises this path's
+                        // guess k together with the model's order position of the query: x_0 = 0, x_last = len-1 (slope 1,
+                        // so guess = floor(q)), q = k + 1/2, the other knots spread below and above q.
+                        let guess = p.pc.iter().find_map(|l| match &l.cond {
+                            crate::engine::core::Cond::ToUsize(_, Some(k)) => Some(*k),
+                            _ => None,
+                        });
+                        let pos = xs.iter().filter(|v| **v <= qv).count();
+                        if let (Some(k), true) = (guess, pos >= 1 && pos <= n - 1 && n >= 3) {
+                            let bi = pos - 1; // bracket the query belongs to
+                            let qn = (k as f64 + 0.5).min(n as f64 - 1.25);
+                            let mut ax = vec![0.0f64; n];
+                            ax[n - 1] = (n - 1) as f64;
+                            for j in 1..n - 1 {
+                                ax[j] = if j <= bi { qn * j as f64 / (bi as f64 + 0.5) } else { qn + ((n - 1) as f64 - qn) * (j - bi) as f64 / (n - 1 - bi) as f64 };
+                            }
+                            if ax.windows(2).all(|w| w[0] < w[1]) && ax[bi] <= qn && qn < ax[bi + 1] {
+                                let nat2 = native_idx(&ax, qn, view_kind);
+                                if nat2 != Ok(bi) {
+                                    reproduced = true;
+                                    crafted = format!("axis {ax:?}, query {qn}: expected index {bi}, native result {nat2:?}");
+                                }
+                            }
+                        }
+                    }
+                    let nat = if crafted.is_empty() { format!("{nat:?}") } else { crafted };
+                    chk.finding("C11:wrong-interval", &format!("length {n}: a feasible search path returns {i} for a query it does not bracket"), Json::obj().with("length", n).with("model", crate::c05::model_json(&m)).with("native_result", nat), Some(reproduced));
                 }
             }
             Err(msg) => {
